@@ -6,7 +6,7 @@ PROP = {
         {"tag": "c14", "bin": "c14"},
         # caller programs compiled separately (harness/src/bin/gcall.rs): the operations used from code generic over the
         # lengths / element type with exactly the published impl bounds, and with plain method syntax (direct oracles)
-        {"tag": "c14call", "bin": "gcall", "args": ["--prop", "C14"], "model": False},
+        {"tag": "c14call", "bin": "gcall", "no_default_features": True, "args": ["--prop", "C14"], "model": False},
         {"tag": "c14fh", "bin": "c14", "features": ["fasterhex"]},
         # optimised builds (no debug_assert, no UB-check aborts, inlined unsafe paths): thorough only
         {"tag": "c14rel", "bin": "c14", "profile": "release", "tiers": ["thorough"]},
